@@ -3,6 +3,8 @@
 // surrogates) from UTF-32 to UTF-8; against RFC 3629 (well-formed byte sequences table) written out independently.
 #include <jsoncons/json.hpp>
 #include <jsoncons/utility/unicode_traits.hpp>
+#include <cstring>
+#include <cstdlib>
 #include "replay_util.hpp"
 using namespace jsoncons;
 static bool ref_valid(const std::string& s)
@@ -37,6 +39,13 @@ int main(int argc, char** argv)
         std::string want; if (cp < 0x80) want = {(char)cp}; else if (cp < 0x800) want = {(char)(0xc0 | cp >> 6), (char)(0x80 | (cp & 63))}; else if (cp < 0x10000) want = {(char)(0xe0 | cp >> 12), (char)(0x80 | ((cp >> 6) & 63)), (char)(0x80 | (cp & 63))};
         else want = {(char)(0xf0 | cp >> 18), (char)(0x80 | ((cp >> 12) & 63)), (char)(0x80 | ((cp >> 6) & 63)), (char)(0x80 | (cp & 63))};
         if (ok != scalar || (ok && out != want)) { if (!bad) first = "code point " + std::to_string(cp) + (ok ? " converted" : " refused"); ++bad; } }
+    // to_codepoint on exact-size heap buffers (no terminator behind the view): every 1-4 byte prefix of a well-formed sequence and some ill-formed ones; a truncated or ill-formed
+    // sequence is refused without reading past the end (ASan decides), a complete one gives its code point
+    { const std::vector<std::string> seqs = {"A", "\xC3\xA9", "\xE2\x82\xAC", "\xF0\x9F\x98\x80", "\xED\x9F\xBF", "\xF4\x8F\xBF\xBF", "\xC3", "\xE2\x82", "\xF0\x9F\x98", "\xF0\x9F", "\xE2", "\xF0", "\x80", "\xFF"};
+      for (const std::string& full : seqs) for (size_t pre = 0; pre < 3; ++pre) { ++total; size_t n = pre + full.size(); char* buf = (char*)malloc(n); memset(buf, 'a', pre); memcpy(buf + pre, full.data(), full.size());
+          const char* it = buf + pre; uint32_t cp = 0; auto r = unicode_traits::to_codepoint(it, (const char*)(buf + n), cp); bool ok = r.ec == unicode_traits::unicode_errc(); bool want = ref_valid(full);
+          if (ok != want || (ok && r.ptr != buf + n)) { if (!bad) { std::ostringstream os; os << "to_codepoint on the exact buffer"; for (unsigned char c : full) os << ' ' << std::hex << (int)c; os << (ok ? " succeeds" : " fails") << ", RFC 3629 says " << (want ? "well-formed" : "ill-formed or truncated"); first = os.str(); } ++bad; }
+          free(buf); } }
     if (bad) VX_REPRO(bad << " of " << total << " cases differ from RFC 3629, first: " << first);
     VX_NOREPRO("all " << total << " cases agree with RFC 3629");
 }
